@@ -282,6 +282,22 @@ func HandleSetFileInfo(cc *hotline.ClientConn, t *hotline.Transaction) (res []ho
 	if err != nil {
 		return res
 	}
+
+	// A request that carries both a comment and a new name is refused as a whole when the rename is not allowed: check
+	// that privilege before the comment is written, so that an error reply never comes with half of the request done.
+	if t.GetField(hotline.FieldFileNewName).Data != nil {
+		switch mode := fi.Mode(); {
+		case mode.IsDir():
+			if !cc.Authorize(hotline.AccessRenameFolder) {
+				return cc.NewErrReply(t, "You are not allowed to rename folders.")
+			}
+		case mode.IsRegular():
+			if !cc.Authorize(hotline.AccessRenameFile) {
+				return cc.NewErrReply(t, "You are not allowed to rename files.")
+			}
+		}
+	}
+
 	if t.GetField(hotline.FieldFileComment).Data != nil {
 		switch mode := fi.Mode(); {
 		case mode.IsDir():
